@@ -123,7 +123,7 @@ func RunCheck(o CheckOpts) (*CheckReport, error) {
 	var actions []actionJob
 	// lock-style monitors: every function that locks the mutex is a unit (own contract, or an empty one)
 	for _, m := range eng.DB.Monitors {
-		if m.Kind != "lock" || !hasProp(m.Props, o.Prop) {
+		if m.Kind != "lock" || !hasProp(m.Props, o.Prop) || m.DisciplineOnly {
 			continue
 		}
 		for _, fn := range eng.LockSections(m) {
